@@ -199,6 +199,7 @@ def specs_nof(tier):
         s.append(("contracts.nof_wrappers", "unit_eq", {"other_kind": k, "timeout_ms": t}))
     s.append(("contracts.nof_wrappers", "unit_small_accessors", {"timeout_ms": t}))
     s.append(("contracts.nof_wrappers", "unit_applyfunc", {"timeout_ms": t}))
+    s.append(("contracts.nof_wrappers", "unit_subs_doit_simplify", {"timeout_ms": t}))
     from contracts.nof_from_expr import VALIDATOR_LAYOUTS as _VL
     for k in _VL:
         s.append(("contracts.nof_from_expr", "unit_validate_operators", {"layout_name": k, "timeout_ms": t}))
@@ -206,6 +207,9 @@ def specs_nof(tier):
         s.append(("contracts.nof_from_expr", "unit_validate_terms", {"defect": k, "timeout_ms": t}))
     for k in ("mixed", "ladder-both-ways", "none"):
         s.append(("contracts.nof_from_expr", "unit_find_operators", {"case": k, "timeout_ms": t}))
+    for k in ("BosonOp", "FermionOp", "SigmaOpBase", "LadderOp"):
+        s.append(("contracts.nof_from_expr", "unit_number_operator", {"kind": k, "timeout_ms": t}))
+    s.append(("contracts.nof_from_expr", "unit_ladder_and_helpers", {"timeout_ms": t}))
     # the constructor establishes the class invariant the other NOF units start from (counts per statistics, placeholders, term layout)
     for lay in (["BosonOp", "SigmaMinus", "FermionOp"], ["BosonOp", "LadderOp", "LadderOp", "FermionOp", "FermionOp"], []):
         for tk in ("dict", "pairs", "Tuple"):
